@@ -234,7 +234,13 @@ Lemma src_read_inner_nu d evs room r sr :
   (nu sr <= length evs + length d)%nat /\
   (forall bs cl, r = ROk bs cl -> cl <> 0 -> (nu sr < length evs + length d)%nat).
 Proof.
-  intros Hni. destruct evs as [|[n| |e| |n] ev]; cbn [src_read_inner]; intros H; inversion H; subst; clear H;
+  intros Hni. destruct evs as [|[n| |e| |n] ev]; cbn [src_read_inner]; intros H.
+  2: { (* Deliver: what does not fit stays at the head of the schedule, but data shrinks *)
+    set (k := N.min (N.min n room) (nlen d)) in *.
+    destruct ((0 <? k) && (k <? n)) eqn:Hc; inversion H; subst; clear H;
+      unfold nu; cbn [events data prebuf length]; rewrite ?length_nskipn; split; try lia;
+      intros bs cl Hr Hcl; inversion Hr; subst; unfold nlen in *; lia. }
+  all: inversion H; subst; clear H;
     unfold nu; cbn [events data prebuf length]; rewrite ?length_nskipn; split; try lia;
     intros bs cl Hr Hcl; inversion Hr; subst; try lia;
     try (unfold nlen in *; lia); try (exfalso; eapply Hni; reflexivity).
@@ -750,7 +756,11 @@ Lemma src_read_inner_conserve d evs room r sr :
   NoLie (events sr) /\
   match r with ROk bs _ => bs ++ pending sr = d | RErr _ => pending sr = d end.
 Proof.
-  destruct evs as [|[n| |e| |n] ev]; cbn [src_read_inner NoLie]; intros HN H; inversion H; subst; clear H;
+  destruct evs as [|[n| |e| |n] ev]; cbn [src_read_inner NoLie]; intros HN H.
+  2: { destruct ((0 <? N.min (N.min n room) (nlen d)) && (N.min (N.min n room) (nlen d) <? n));
+       inversion H; subst; clear H; unfold pending; cbn [events prebuf data app NoLie];
+       (split; [exact HN | apply nfirstn_nskipn]). }
+  all: inversion H; subst; clear H;
     unfold pending; cbn [events prebuf data app NoLie]; try (split; [exact HN|]); try (split; [exact I|]);
     try apply nfirstn_nskipn; try reflexivity; contradiction.
 Qed.
